@@ -1025,9 +1025,9 @@ def run(tier, seed):
             "strings -2..n+1 x frets -2..maxfret+2 x %d maxfret values for get_Note; all instrument-name prefixes (mixed case) x "
             "string counts %r x course counts %r for get_tunings, x description prefixes for get_tuning; %d seeded note sets "
             "(1..n+1 notes, 3 input forms, max_distance 0..30) per tuning against the brute-force fingering specification; "
-            "%d chord shorthands x 12 roots on %s guitar-family tunings plus seeded limit variations; tablature: notes 0..127 x "
+            "%d chord shorthands x 12 roots, %s guitar-family tunings without courses, plus seeded limit variations; tablature: notes 0..127 x "
             "%d widths x %d plain tunings for from_Note, %d note sets, %d bars and %d tracks per plain tuning, %d compositions "
-            "(1-3 tracks, widths 20..300), each rendered and read back by an independent tab reader; tier %s, seed %d"
+            "(1-3 tracks; page widths from 8 columns up to those giving a 32nd note three columns), each rendered and read back by an independent tab reader; tier %s, seed %d"
             % (len(tunings), len(coursed), len(mfs), 5 if quick else 8, nss, ncs, 40 if quick else 700, len(shorthands),
                "rotating over the %d" % len(fam_plain) if quick else "each of the %d" % len(fam_plain),
                len(widths), len(plain), 25 if quick else 500, 30 if quick else 700, 12 if quick else 200,
